@@ -529,6 +529,16 @@ pub fn execute(plan: &Plan, trace: bool) -> Exec {
             let reset_accepted = o.reset_result == Some(true);
             ex.fault("stream_reset_mid_transfer", reset_accepted as u64);
             ex.probe("reset_while_read_exact_parked", (reset_accepted && plan.read_exact_chunk > *pre) as u64);
+            // a finish() attempt abandoned while still pending (no acknowledgement can arrive within
+            // its 50 us: the one-way latency is at least 200 us) leaves the stream open for a reset
+            let finish_abandoned = o.notes.iter().any(|n| n.starts_with("finish-before-reset: Err(Elapsed"));
+            if *finish_first && finish_abandoned && !reset_accepted {
+                ex.violation(
+                    "C06/reset-refused",
+                    format!("{role}: writer wrote {pre} bytes, began finishing (still pending, FIN unacknowledged), then reset({code}) was refused: {:?}; reader saw {} bytes then {:?}", o.reset_result, o.reader_bytes.len(), o.reader_end),
+                );
+                return ex;
+            }
             match &o.reader_end {
                 Some(Err(StreamReadError::Reset(c))) if c.into_inner() == *code && reset_accepted => ex.probe("reset_seen", 1),
                 Some(Ok(())) if *finish_first && o.reader_bytes.len() == *pre => ex.probe("finish_won_over_reset", 1),
